@@ -158,11 +158,6 @@ func (r *YieldReader) ReadTCP(conn net.Conn, timeout time.Duration) ([]byte, err
 }
 
 //go:norace
-func (r *YieldReader) ReadUDP(conn *net.UDPConn, timeout time.Duration) ([]byte, *dns.SessionUDP, error) {
-	return r.Inner.ReadUDP(conn, timeout)
-}
-
-//go:norace
 func (r *YieldReader) ReadPacketConn(conn net.PacketConn, timeout time.Duration) ([]byte, net.Addr, error) {
 	r.K.Yield("reader.prePC", 0)
 	stall(r.K, r.Slow, "reader.stall")
